@@ -509,7 +509,11 @@ class PODReader(Reader):
                        + self._times_as_np_datetime64[0])
         # calculate the missing geo locations
         try:
-            missed_lons, missed_lats = self._compute_missing_lonlat(missed_utcs)
+            if missed_lines.size:
+                missed_lons, missed_lats = self._compute_missing_lonlat(missed_utcs)
+            else:
+                # all lines of the interpolation range are in the file
+                missed_lons = missed_lats = np.empty((0, self.lats.shape[1]))
         except NoTLEData as err:
             LOG.warning("Cannot perform clock drift correction: %s", str(err))
             return
